@@ -37,21 +37,21 @@ type AddRec struct {
 }
 
 type vresult struct {
-	r          *vrun
-	adds       []AddRec
-	bundle     *sourcebundle.Bundle
-	closeErr   error
-	closePanic string
+	r                        *vrun
+	adds                     []AddRec
+	bundle                   *sourcebundle.Bundle
+	closeErr                 error
+	closePanic               string
 	closeInvoke, closeReturn int
-	closeRan   bool
-	closedInTask bool // Close ran inside a client task while other tasks' calls could still be in flight
-	deadlock   bool
-	anyErr     bool
-	manifest   []byte
-	checksum   string
-	listing    []string
-	lookups    []string
-	tape       []int
+	closeRan                 bool
+	closedInTask             bool // Close ran inside a client task while other tasks' calls could still be in flight
+	deadlock                 bool
+	anyErr                   bool
+	manifest                 []byte
+	checksum                 string
+	listing                  []string
+	lookups                  []string
+	tape                     []int
 }
 
 func installHooks() {
